@@ -38,8 +38,22 @@ def coq_list(items):
 
 # ------------------------------------------------------------------ (A) manager op sequences
 
-def gen_simple_op(rng, ids, allow_register=True, avoid=None):
+ACT_MINUTES = [-12, -9, -7, -5, -3, -1, 1, 3, 5]
+
+
+def next_activity(rng, hi, i):
+    """activity stamps of a participant never go back (0 = reset() is always possible)"""
+    if rng.random() < 0.15:
+        return 0
+    choices = [m for m in ACT_MINUTES if m >= hi.get(i, -99)] or [hi[i]]
+    m = rng.choice(choices)
+    hi[i] = m
+    return OFFSET + m * MIN
+
+
+def gen_simple_op(rng, ids, allow_register=True, avoid=None, hi=None):
     """one primitive operation on a participant; times are logical (OFFSET + minutes), distinct per id"""
+    hi = hi if hi is not None else {}
     i = rng.choice(ids)
     r = rng.random()
     if r < 0.22 and allow_register and i != avoid:
@@ -49,8 +63,7 @@ def gen_simple_op(rng, ids, allow_register=True, avoid=None):
         t = rng.choice([2, 4, 6, 10]) * MIN + (i + 1) * SEC
         return {"K": "register", "Id": i, "S": s, "T": t, "N": rng.choice([0, 1, 2, 3])}
     if r < 0.40:
-        l = 0 if rng.random() < 0.15 else OFFSET + rng.choice([-12, -9, -7, -5, -3, -1, 1, 3, 5]) * MIN
-        return {"K": "setlatest", "Id": i, "L": l}
+        return {"K": "setlatest", "Id": i, "L": next_activity(rng, hi, i)}
     if r < 0.52:
         return {"K": "touch", "Id": i}
     if r < 0.62:
@@ -69,11 +82,14 @@ def gen_simple_op(rng, ids, allow_register=True, avoid=None):
 def gen_mgr_case(rng, cid, thorough):
     ids = list(range(NF + NP))
     ops = []
+    hi = {}
     n = rng.randint(10, 40 if thorough else 26)
     # start with a few registrations so that something happens
     for i in rng.sample(ids, rng.randint(2, 4)):
         s = rng.choice([0, 0, 1]) if i >= NF else 0
-        ops.append({"K": "setlatest", "Id": i, "L": OFFSET + rng.choice([-12, -9, -5, -1, 3]) * MIN})
+        m0 = rng.choice([-12, -9, -5, -1, 3])
+        hi[i] = m0
+        ops.append({"K": "setlatest", "Id": i, "L": OFFSET + m0 * MIN})
         ops.append({"K": "register", "Id": i, "S": s, "T": rng.choice([2, 4, 6, 10]) * MIN + (i + 1) * SEC, "N": rng.choice([1, 2, 3])})
     nobj_guess = len(ops) // 2
     for _ in range(n):
@@ -89,11 +105,13 @@ def gen_mgr_case(rng, cid, thorough):
                 inner = []
                 res = rng.random() < 0.4
                 for _j in range(rng.randint(0, 2)):
-                    inner.append(gen_simple_op(rng, ids, allow_register=True, avoid=target))
+                    inner.append(gen_simple_op(rng, ids, allow_register=True, avoid=target, hi=hi))
                 if not res:
                     fix = rng.random()
                     if fix < 0.5:
-                        inner.append({"K": "setlatest", "Id": target, "L": OFFSET + rng.choice([7, 9, 11]) * MIN})
+                        mfix = rng.choice([7, 9, 11])
+                        hi[target] = max(hi.get(target, -99), mfix)
+                        inner.append({"K": "setlatest", "Id": target, "L": OFFSET + hi[target] * MIN})
                     elif fix < 0.75:
                         inner.append({"K": "pause", "Id": target})
                     else:
@@ -102,10 +120,18 @@ def gen_mgr_case(rng, cid, thorough):
             # the last scripted call succeeds or makes the entry not due, so the loop ends within the script
             ops.append({"K": "trigger", "Id": target, "Obj": -1, "Script": script})
         elif r < 0.42:
-            inner = [gen_simple_op(rng, ids, allow_register=False) for _ in range(rng.randint(0, 2))]
+            inner = [gen_simple_op(rng, ids, allow_register=False, hi=hi) for _ in range(rng.randint(0, 2))]
             ops.append({"K": "process", "Script": [{"Inner": inner, "Res": rng.random() < 0.5}]})
+        elif r < 0.50:
+            # activity while paused, reported to the manager, then resumed: the resume must honour it
+            i = rng.choice(ids[:NF + 1])
+            ops.append({"K": "pause", "Id": i})
+            ops.append({"K": "setlatest", "Id": i, "L": next_activity(rng, hi, i)})
+            ops.append({"K": "touch", "Id": i})
+            ops.append({"K": "resume", "Id": i})
+            ops.append({"K": "trigger", "Id": i, "Obj": -1, "Script": [{"Inner": [], "Res": True}]})
         else:
-            ops.append(gen_simple_op(rng, ids))
+            ops.append(gen_simple_op(rng, ids, hi=hi))
     return {"Id": cid, "Ops": ops}
 
 
@@ -175,6 +201,11 @@ def run(ctx):
                  {"K": "setlatest", "Id": 1, "L": OFFSET - 1 * MIN}, {"K": "touch", "Id": 1},
                  {"K": "trigger", "Id": 1, "Obj": 0, "Script": [{"Inner": [], "Res": True}]}, {"K": "next"}]},
     ]
+    corpus.append(
+        # a message handled (and reported) while paused, then resume: the pre-pause deadline must not be used
+        {"Ops": [{"K": "setlatest", "Id": 0, "L": OFFSET - 9 * MIN}, {"K": "register", "Id": 0, "S": 0, "T": 4 * MIN + SEC, "N": 0}, {"K": "pause", "Id": 0},
+                 {"K": "setlatest", "Id": 0, "L": OFFSET - 1 * MIN}, {"K": "touch", "Id": 0}, {"K": "resume", "Id": 0}, {"K": "next"},
+                 {"K": "trigger", "Id": 0, "Obj": -1, "Script": [{"Inner": [], "Res": True}]}, {"K": "next"}]})
     for c in corpus:
         c["Id"] = len(mgr_cases)
         mgr_cases.append(c)
@@ -240,6 +271,8 @@ def run(ctx):
             continue
         latest = {}
         processed = {}
+        reported = {}
+        timeouts = {}
         prev_entries = {}
         hops, obs = [], []
         decided_any = False
@@ -252,6 +285,14 @@ def run(ctx):
                     latest[x["Id"]] = x["L"]
                 if x["K"] == "setprocessed":
                     processed[x["Id"]] = x["N"]
+                if x["K"] in ("touch", "resume", "register"):
+                    # the activity the actor has reported to the manager (markActivity -> Touch, or read by
+                    # Register / Resume); stamps never go back in these sequences
+                    reported[x["Id"]] = latest.get(x["Id"], 0)
+                if x["K"] == "register":
+                    timeouts[x["Id"]] = x["T"] if x["S"] == 0 else None
+            decision_reported = dict(reported)
+            decision_timeouts = dict(timeouts)
             track(o)
             if o["K"] == "trigger":
                 # the expected pointer: the object currently (or last) known for that participant
@@ -277,6 +318,11 @@ def run(ctx):
                         elif e["Deadline"] > OFFSET + 30 * SEC:
                             viol("trigger:deadline-not-reached", "manager case %d: passivate called for participant %d although its deadline is %.0f s in the future" %
                                  (cs["Id"], pid_idx, (e["Deadline"] - OFFSET) / SEC), {"case": cs, "op": o, "before": e})
+                        else:
+                            rep, tmo = decision_reported.get(pid_idx, 0), decision_timeouts.get(pid_idx)
+                            if rep and tmo and (OFFSET - rep) + 30 * SEC < tmo - TOUCH:
+                                viol("trigger:activity-reported-to-the-manager-ignored", "manager case %d: passivate called for participant %d (timeout %.0f s) although the activity it last reported to the manager (Touch / Resume / Register) is only %.0f s old; deadline in use: %.0f s ago" %
+                                     (cs["Id"], pid_idx, tmo / SEC, (OFFSET - rep) / SEC, (OFFSET - e["Deadline"]) / SEC), {"case": cs, "op": o, "before": e, "reported_activity_age_s": (OFFSET - rep) / SEC})
                 elif o["K"] == "process":
                     if e is None or e["Paused"]:
                         viol("processMessageEntry:decision-without-eligible-entry", "manager case %d: passivate called for participant %d whose entry before the call was %s" % (cs["Id"], pid_idx, e),
@@ -287,7 +333,8 @@ def run(ctx):
                         if stale_seen == 1:
                             viol(SIG_STALE, "manager case %d: a message-count trigger queued before the entry was re-registered leads to a passivation attempt although the counter (%s) is below baseline %d + maxMessages" %
                                  (cs["Id"], processed.get(pid_idx), e["Base"]), {"case": cs, "op": o, "before": e})
-            for c in (o.get("Script") or []):
+            # only the scripted calls of passivate that actually happened ran their inner operations
+            for c in (o.get("Script") or [])[:(st.get("Calls") or 0)]:
                 for x in c["Inner"]:
                     track(x)
             prev_entries = ents
@@ -357,7 +404,7 @@ def run(ctx):
             viol("passivation:PostStop-more-than-once", "%s: PostStop ran %d times" % (o["Name"], len(posts)), o)
         if passivated and (o["Running"] or len(posts) != 1):
             viol("passivation:passivated-but-running", "%s: passivation reported success, running=%s PostStop count=%d" % (o["Name"], o["Running"], len(posts)), o)
-        if kind in ("steady", "burst"):
+        if kind in ("steady", "burst", "pausedbusy"):
             for d, r in zip(decs, ress):
                 if not r:
                     continue
@@ -376,7 +423,7 @@ def run(ctx):
                     else:
                         viol("passivation:early", "%s (timeout %d ms): passivated %.0f ms after it began handling a message (allowed: not before %d ms)" %
                              (o["Name"], T // MS, (d - h) / MS, (T - TOUCH) // MS), o)
-        if kind == "paused":
+        if kind in ("paused", "pausedbusy"):
             lo, hi = o["PhaseMarks"]["paused"] + 30 * MS, o["PhaseMarks"]["resume"]
             if any(lo <= d <= hi and r for d, r in zip(decs, ress)) or any(lo <= p <= hi for p in posts):
                 viol("passivation:while-paused", "%s: passivated while passivation was paused" % o["Name"], o)
@@ -480,7 +527,7 @@ Eval vm_compute in summary.
         "manager_steps": n_steps, "manager_decisions": n_decisions, "op_histogram": op_hist, "mark_steps": n_marks,
         "guard_combinations": len(guard_outs), "guard_combinations_passivated": n_guard_pass, "live": live_stats,
         "stale_trigger_findings": stale_seen, "turn_stamp_findings": turn_findings, "model_vs_implementation": coq_stats,
-        "theorems": ["C12_no_early_passivation", "C12_no_early_passivation_handled", "C12_no_early_passivation_handled_refuted", "C12_count_threshold_partial",
+        "theorems": ["C12_no_early_passivation", "C12_no_early_passivation_handled", "C12_no_early_passivation_handled_refuted", "C12_resume_refreshes", "C12_count_threshold_partial",
                      "C12_count_threshold_refuted", "C12_long_lived_never_scheduled", "C12_entries_have_a_passivating_strategy", "C12_try_passivation_guards", "C12_invariant"],
     })
 
